@@ -321,7 +321,12 @@ func (p goTypes) cvtStruct(typ *types.Struct) (raw *types.Struct, cvt bool) {
 		flds[i] = f
 	}
 	if needcvt {
-		return types.NewStruct(flds, nil), true
+		// the converted struct describes the same Go type: keep its field tags
+		tags := make([]string, n)
+		for i := range tags {
+			tags[i] = typ.Tag(i)
+		}
+		return types.NewStruct(flds, tags), true
 	}
 	return typ, false
 }
